@@ -106,7 +106,8 @@ pub fn any_decimal_scale0(inp: &mut Inp) -> Decimal {
     Decimal::from_parts(lo, mid, hi, neg, 0)
 }
 /// Every valid DateTime<Utc>: built from (year, ordinal) and (second of day, nanosecond) without division.
-pub fn any_datetime(inp: &mut Inp) -> DateTime<Utc> {
+/// Returns the value together with the numbers it was built from (used by the reference arithmetic).
+pub fn any_datetime_parts(inp: &mut Inp) -> (DateTime<Utc>, i32, u32, u32, u32) {
     let y = inp.i32(); let ord = inp.u32(); let secs = inp.u32(); let nano = inp.u32();
     let d = NaiveDate::from_yo_opt(y, ord);
     let t = NaiveTime::from_num_seconds_from_midnight_opt(secs, nano);
@@ -114,14 +115,26 @@ pub fn any_datetime(inp: &mut Inp) -> DateTime<Utc> {
     // leap-second representation (nano >= 1e9) is a valid chrono value only in second 59; keep it out: the
     // evaluator cannot produce it from text and chrono documents it as a special case
     assume(nano < 1_000_000_000);
-    DateTime::<Utc>::from_naive_utc_and_offset(NaiveDateTime::new(d.unwrap(), t.unwrap()), Utc)
+    (DateTime::<Utc>::from_naive_utc_and_offset(NaiveDateTime::new(d.unwrap(), t.unwrap()), Utc), y, ord, secs, nano)
 }
-/// Every valid TimeDelta.
-pub fn any_duration(inp: &mut Inp) -> TimeDelta {
+pub fn any_datetime(inp: &mut Inp) -> DateTime<Utc> { any_datetime_parts(inp).0 }
+/// Every valid TimeDelta, with the (seconds, nanoseconds) it was built from.
+pub fn any_duration_parts(inp: &mut Inp) -> (TimeDelta, i64, u32) {
     let secs = inp.i64(); let nanos = inp.u32();
     let d = TimeDelta::new(secs, nanos);
     assume(d.is_some());
-    d.unwrap()
+    (d.unwrap(), secs, nanos)
+}
+pub fn any_duration(inp: &mut Inp) -> TimeDelta { any_duration_parts(inp).0 }
+/// proleptic Gregorian leap-year rule (independent of chrono)
+pub fn ref_is_leap(y: i32) -> bool { let m4 = y.rem_euclid(4) == 0; let m100 = y.rem_euclid(100) == 0; let m400 = y.rem_euclid(400) == 0; m4 && (!m100 || m400) }
+/// (month, day) of an ordinal day in a year, by a cumulative table (independent of chrono)
+pub fn ref_month_day(y: i32, ord: u32) -> (u32, u32) {
+    let f = if ref_is_leap(y) { 29 } else { 28 };
+    let lens = [31u32, f, 31, 30, 31, 30, 31, 31, 30, 31, 30, 31];
+    let mut rest = ord; let mut m = 0usize;
+    while m < 11 && rest > lens[m] { rest -= lens[m]; m += 1; }
+    (m as u32 + 1, rest)
 }
 pub fn dec_parts(d: &Decimal) -> (i128, u32) { (d.mantissa(), d.scale()) }
 pub fn same_dec(a: &Decimal, b: &Decimal) -> bool { a.mantissa() == b.mantissa() && a.scale() == b.scale() }
